@@ -1324,6 +1324,11 @@ func checkC18(in *exInput) []exFinding {
 		if g.Acyclic {
 			return bytes.Equal(a.out, b.out)
 		}
+		// (where a cycle is cut may depend on the order in which Go walks a map - but never whether the reference the element itself
+		// consists of is followed at all)
+		if exBareRef(a.out) != exBareRef(b.out) {
+			return false
+		}
 		return exJSON(s.unfold(g.Root, exDecode(a.out), exSchema, exDepth)) == exJSON(s.unfold(g.Root, exDecode(b.out), exSchema, exDepth))
 	}
 	preload := func(urls []string) *exMapCache {
@@ -1403,6 +1408,18 @@ func checkC18(in *exInput) []exFinding {
 		sharedLoads = append(sharedLoads, re.loads...)
 		if !same(base, re) {
 			fs = append(fs, exFinding{Shape: exShape("cache-changes-result", g, abs), What: "a cache reused from earlier expansions of the same documents changes the expansion of " + string(el), Obs: exClip(string(re.out)+re.err, 1200), Exp: exClip(string(base.out)+base.err, 1200)})
+		}
+	}
+	// a second pass with the same cache: every element once more, after everything has been walked
+	for _, el := range elements {
+		base := exExpandWithCache(g, el, nil, abs)
+		re := exExpandWithCache(g, el, shared, abs)
+		if bad(base) || bad(re) {
+			continue
+		}
+		sharedLoads = append(sharedLoads, re.loads...)
+		if !same(base, re) {
+			fs = append(fs, exFinding{Shape: exShape("cache-changes-result", g, abs), What: "a cache reused from earlier expansions of the same documents changes the expansion of " + string(el) + " (second pass)", Obs: exClip(string(re.out)+re.err, 1200), Exp: exClip(string(base.out)+base.err, 1200)})
 		}
 	}
 	if d := exDuplicates(sharedLoads); len(d) > 0 {
@@ -2476,4 +2493,14 @@ func init() {
 	replays["C16"] = replayC16
 	oracles["C17"] = oracleC17
 	replays["C17"] = replayC17
+}
+
+// exBareRef: the text is an object with the single member `$ref`.
+func exBareRef(out []byte) bool {
+	m, ok := exDecode(out).(map[string]interface{})
+	if !ok || len(m) != 1 {
+		return false
+	}
+	_, has := m["$ref"]
+	return has
 }
